@@ -8,12 +8,15 @@
   uninitialised words, labels, external flags, source positions, relocation entries (little-endian, fix F5), line
   mapping, source text (UTF-8 decode∘encode = id for every string).  The equality is exact (same entry order), so it
   holds a fortiori up to the unspecified order of the Rust hash maps.
-  Not proved: that every object file the assembler or the linker returns is `WF` (sortedness of the block map, uniqueness
-  of keys, strict ascent after fix F6 are established by those algorithms; proved here only for the empty file and by
-  example). That gap is what the correspondence check covers: 2,500+ object files from assembling and linking are
+  `assembled_roundtrip` (Lemmas/AssembledWF.lean): every file `assemble` returns without debug symbols is `WF` — sorted blocks
+  within the field widths (C01 image theorem, no wrap of the location counter), unique label names and relocation addresses
+  (invariants of pass 1), fields that fit — hence round-trips.
+  Not proved: `WF` of files assembled *with* debug symbols (needs strict ascent of the line blocks as a theorem) and of
+  linked files. That gap is what the correspondence check covers: 2,500+ object files from assembling and linking are
   serialized and read back by implementation and model, and both must return the original.
 -/
 import Lc3V.Lemmas.BinRoundtrip2
+import Lc3V.Lemmas.AssembledWF
 set_option linter.unusedSimpArgs false
 namespace Lc3V.C17
 open Lc3V Bin
@@ -57,8 +60,17 @@ example : WF sample := by
       simp only [List.mem_cons, List.mem_nil_iff, or_false] at he
       rcases he with rfl | rfl <;> decide
 
+/-- **every assembled file round-trips** (assembling without debug symbols): the object file `assemble` returns is well-formed,
+    hence `deserialize (serialize obj) = some obj`.  Hypotheses (guaranteed by lexer and parser for any real source): string
+    literals below 64 K, label positions and label names that fit 64 bits. -/
+theorem assembled_roundtrip (stmts : List Stmt) (obj : ObjFile) (h : assemble stmts none = .ok obj)
+    (hstr : ∀ s ∈ stmts, ∀ x, s.nucleus = .directive (.stringz x) → blen x + 1 < 65536)
+    (hlab : LabelsBounded stmts) (hfill : FillLabelsBounded stmts) :
+    WF obj ∧ deserialize (serialize obj) = some obj :=
+  ⟨assembled_wf_nodebug stmts obj h hstr hlab hfill, roundtrip obj (assembled_wf_nodebug stmts obj h hstr hlab hfill)⟩
+
 def obligations : List Lean.Name :=
-  [``roundtrip, ``wf_empty, ``Lc3V.Bin.deserialize_serialize, ``Lc3V.Bin.fromUtf8_utf8, ``Lc3V.Bin.unle_le, ``Lc3V.Bin.chunks3_words,
+  [``roundtrip, ``assembled_roundtrip, ``Lc3V.assembled_wf_nodebug, ``wf_empty, ``Lc3V.Bin.deserialize_serialize, ``Lc3V.Bin.fromUtf8_utf8, ``Lc3V.Bin.unle_le, ``Lc3V.Bin.chunks3_words,
    ``Lc3V.Bin.chunks2_words, ``Lc3V.Bin.read_block, ``Lc3V.Bin.read_label, ``Lc3V.Bin.read_lineBlock, ``Lc3V.Bin.read_src,
    ``Lc3V.Bin.read_rel, ``Lc3V.Bin.readChunks_items, ``Lc3V.Bin.fromBlocks_self, ``Lc3V.insAll_nil]
 
